@@ -1375,6 +1375,33 @@ def rule_ignore_dominates(ctx, rep: Report, rid="A5"):
         raise AnalysisError(f"{rep.prop}/{rid}: no per-class emission besides the class block found")
 
 
+def _name_table_value(v, mod) -> Optional[Set[str]]:
+    """The set of strings an expression for a table of names denotes: literals, `+` of tables, list()/tuple()/sorted()/set() of a
+    table, a module-level constant, and the tables of the standard `keyword` module (the analyser runs on the interpreter the
+    tool runs on, so `keyword.kwlist` here is the list the tool would see)."""
+    if isinstance(v, ast.Call) and unparse(v.func) in ("list", "tuple", "sorted", "set", "frozenset") and len(v.args) == 1 and not v.keywords:
+        return _name_table_value(v.args[0], mod)
+    if isinstance(v, ast.BinOp) and isinstance(v.op, ast.Add):
+        a, b = _name_table_value(v.left, mod), _name_table_value(v.right, mod)
+        return None if a is None or b is None else a | b
+    if isinstance(v, ast.Attribute) and unparse(v) in ("keyword.kwlist", "keyword.softkwlist"):
+        return set(getattr(keyword, v.attr, []))
+    if isinstance(v, ast.Name):
+        if v.id in ("kwlist", "softkwlist") and any(isinstance(x, ast.ImportFrom) and x.module == "keyword" and any(a.name == v.id and a.asname is None for a in x.names)
+                                                    for x in mod.tree.body):
+            return set(getattr(keyword, v.id, []))
+        tops = [x.value for x in mod.tree.body if isinstance(x, ast.Assign) and len(x.targets) == 1
+                and isinstance(x.targets[0], ast.Name) and x.targets[0].id == v.id]
+        return _name_table_value(tops[0], mod) if len(tops) == 1 else None
+    try:
+        val = ast.literal_eval(v)
+    except Exception:
+        return None
+    if isinstance(val, (list, tuple, set)) and all(isinstance(x, str) for x in val):
+        return set(val)
+    return None
+
+
 def rule_keyword_escaping(ctx, rep: Report, rid="A6"):
     ci, prog = pw(ctx)
     init = prog.method("PybindWrapper", "__init__")
@@ -1389,13 +1416,14 @@ def rule_keyword_escaping(ctx, rep: Report, rid="A6"):
                 tops = [x.value for x in ci.mod.tree.body if isinstance(x, ast.Assign) and len(x.targets) == 1
                         and isinstance(x.targets[0], ast.Name) and x.targets[0].id == v.id]
                 v = tops[0] if len(tops) == 1 else v
-            try:
-                kws = set(ast.literal_eval(v))
-            except Exception:
-                kws = None
+            kws = _name_table_value(v, ci.mod)
             kloc = st.lineno
     if kws is None:
         raise AnalysisError("PybindWrapper.python_keywords: literal list not found")
+    extra = sorted(kws - set(keyword.kwlist))
+    rep.add(rid, "python_keywords:contains reserved words only", not extra,
+            f"{extra} are ordinary identifiers in Python (soft keywords such as `match`, `type`, `_` are): a method, static method or function declared "
+            f"with such a name is bound as `{extra[0] if extra else ''}_` instead of under its declared name", f"{ci.mod.rel}:{kloc}")
     missing = sorted(set(keyword.kwlist) - kws)
     rep.add(rid, "python_keywords:contains every reserved word of Python", not missing,
             f"missing {missing}: a C++ method or function with such a name is bound under a name Python cannot "
@@ -1912,3 +1940,51 @@ def rule_templates_are_constant(ctx, rep: Report, rid="Q10", cls="PybindWrapper"
                         f"{ci.mod.rel}:{c.lineno}", nontrivial=not ok)
     if n < 15:
         raise AnalysisError(f"{rep.prop}/{rid}: only {n} format calls found in {cls}")
+
+
+def rule_operator_bindings_by_evaluation(ctx, rep: Report, rid="A11"):
+    """wrap_operators emits one `.def(...)` per declared operator, in declaration order, in the form of its kind: decided by
+    running the function (the analyser's own interpreter) on a sample list in which `-` and `+` occur both as unary and as
+    binary operators - a collection keyed by the symbol, a `set`, or a skip of "repeated" symbols loses one of
+    the two forms that share a symbol."""
+    from .rules_matlab import SampleObj, _PathEval, _Raised, mini_exec
+    ci, prog = pw(ctx)
+    fn = prog.method("PybindWrapper", "wrap_operators")
+    ps = func_params(fn)
+    loc = f"{ci.mod.rel}:{fn.lineno}"
+
+    def op(sym, unary=False):
+        return SampleObj(operator=sym, is_unary=unary, name="operator" + sym, __kind__="Operator")
+    sample = [op("-", True), op("+"), op("-"), op("*"), op("()"), op("+", True), op("[]"), op("==")]
+    env = {ps[0]: SampleObj(), ps[1]: sample, ps[2]: "ns::K"}
+    for p_, d_ in zip(ps[len(ps) - len(fn.args.defaults):], fn.args.defaults):
+        if p_ not in env:
+            try:
+                env[p_] = ast.literal_eval(d_)
+            except Exception:
+                # a default spelled as an expression of constants (`'\n' + ' ' * 8`)
+                env[p_] = "\n        "
+    try:
+        out = mini_exec(fn, env, budget=4000, methods={n_: f_ for n_, f_ in ci.methods.items()})
+    except (_PathEval.Unknown, _Raised) as ex:
+        raise AnalysisError(f"{loc}: wrap_operators is written in a way this rule cannot evaluate ({ex})")
+    if not isinstance(out, str):
+        raise AnalysisError(f"{loc}: wrap_operators did not return text on the sample operators")
+    pieces = [p for p in out.split(".def(")[1:]]
+    want = []
+    for o in sample:
+        if o["operator"] == "[]":
+            want.append("__getitem__")
+        elif o["operator"] == "()":
+            want.append("__call__")
+        elif o["is_unary"]:
+            want.append(f"{o['operator']}py::self)")
+        else:
+            want.append(f"py::self {o['operator']} py::self)")
+    got = []
+    for p in pieces:
+        m = next((w for w in sorted(set(want), key=len, reverse=True) if (w in p and not (w.endswith("py::self)") and not w.startswith("py::self") and ("py::self " + w) in p))), None)
+        got.append(m)
+    rep.add(rid, "wrap_operators:one binding per declared operator, in declaration order, in the form of its kind", got == want,
+            f"for the operators {[('unary ' if o['is_unary'] else '') + o['operator'] for o in sample]} the text holds {len(pieces)} binding(s) {got}; "
+            f"declared are {len(want)}: an operator that shares its symbol with an earlier one (unary and binary `-` / `+`) is not bound", loc)
